@@ -66,6 +66,7 @@ type verifEtcd struct {
 	rev     int64
 	watches []*verifWatch
 	getRevs []int64
+	getKeys []string
 }
 
 func newVerifEtcd() *verifEtcd {
@@ -110,6 +111,7 @@ func (e *verifEtcd) Get(ctx context.Context, key string, opts ...clientv3.OpOpti
 	}
 	resp.Count = int64(len(keys))
 	e.getRevs = append(e.getRevs, e.rev)
+	e.getKeys = append(e.getKeys, key)
 	return resp, nil
 }
 
@@ -244,29 +246,48 @@ func (l *verifListener) take() [][]string {
 
 // ---------------------------------------------------------------- cases
 
-type verifEvent struct {
-	T string `json:"t"` // sub | put | del | reload
+type verifItem struct {
+	T string `json:"t"` // put | del
 	K string `json:"k"`
 	V string `json:"v"`
-	D bool   `json:"d"` // delivered through the watch (put/del)
+}
+
+type verifEvent struct {
+	T     string      `json:"t"` // sub | put | del | reload | batch
+	K     string      `json:"k"`
+	V     string      `json:"v"`
+	D     bool        `json:"d"`     // delivered through the watch (put/del)
+	P     int         `json:"p"`     // sub: index of the prefix subscribed
+	Items []verifItem `json:"items"` // batch: changes arriving in ONE watch response, in this order
 }
 
 type verifCase struct {
-	Prefix string       `json:"prefix"` // the key passed to Monitor
-	Events []verifEvent `json:"events"`
+	Prefix   string       `json:"prefix"`   // the key passed to Monitor (single-prefix cases)
+	Prefixes []string     `json:"prefixes"` // several keys subscribed on the same cluster
+	Events   []verifEvent `json:"events"`
+}
+
+// what is observed for one prefix at the end of one event
+type verifPer struct {
+	Calls    [][][]string `json:"calls"`     // per listener of the prefix (subscription order): calls received during this event
+	Cvals    [][2]string  `json:"cvals"`     // cluster.values[prefix] sorted by key
+	HasCvals bool         `json:"has_cvals"` // whether cluster.values has an entry for the prefix
+	Watchers int          `json:"watchers"`  // streams of the prefix being read after the event
+	GetRev   int64        `json:"get_rev"`   // revision returned by the last Get of the prefix during this event (0: no Get)
+	WatchRev int64        `json:"watch_rev"` // WithRev of the last Watch of the prefix opened during this event (-1: none)
+	WatchPfx string       `json:"watch_pfx"` // key of that Watch ("" none); "=" prepended when WithPrefix is missing
+	Gets     int          `json:"gets"`      // Get calls for the prefix during this event
+	Opened   int          `json:"opened"`    // Watch calls for the prefix during this event
 }
 
 type verifStep struct {
-	Calls    [][][]string `json:"calls"`     // per listener (subscription order): calls received during this event
-	Cvals    [][2]string  `json:"cvals"`     // cluster.values[prefix] sorted by key
-	HasCvals bool         `json:"has_cvals"` // whether cluster.values has an entry for the prefix
-	Watchers int          `json:"watchers"`  // streams being read after the event
-	GetRev   int64        `json:"get_rev"`   // revision returned by the last Get of this event (0: no Get)
-	WatchRev int64        `json:"watch_rev"` // WithRev of the last Watch opened during this event (-1: none)
-	WatchPfx string       `json:"watch_pfx"` // key of that Watch ("" none); "=" prepended when WithPrefix is missing
-	Gets     int          `json:"gets"`      // Get calls during this event
-	Opened   int          `json:"opened"`    // Watch calls during this event
-	Stuck    string       `json:"stuck"`     // non-empty: a barrier timed out here
+	Per   []verifPer `json:"per"`
+	Stuck string     `json:"stuck"` // non-empty: a barrier timed out here
+}
+
+type verifSub struct {
+	l *verifListener
+	p int
 }
 
 var verifSeq int64
@@ -288,6 +309,26 @@ func verifWaitFor(cond func() bool) bool {
 	}
 }
 
+// deliver pushes one watch response through every open stream that selects at least one of its events
+// (each stream gets the events under its own prefix), followed by an empty response as barrier.
+func verifDeliver(etcd *verifEtcd, evs []*clientv3.Event) string {
+	for _, w := range etcd.live() {
+		var mine []*clientv3.Event
+		for _, e := range evs {
+			if w.selects(string(e.Kv.Key)) {
+				mine = append(mine, e)
+			}
+		}
+		if len(mine) == 0 {
+			continue
+		}
+		if !w.send(clientv3.WatchResponse{Events: mine}) || !w.send(clientv3.WatchResponse{}) {
+			return "watch stream not read"
+		}
+	}
+	return ""
+}
+
 // TestVerifDriver drives Registry.Monitor / cluster with a scripted etcd: every event of the history
 // is applied to the fake store; delivered events are pushed through every open watch stream (followed by
 // an empty response as a barrier: the stream goroutine handles responses one after the other), missed
@@ -298,6 +339,10 @@ func TestVerifDriver(t *testing.T) {
 		if err := json.Unmarshal(raw, &cs); err != nil {
 			return map[string]any{"error": err.Error()}
 		}
+		prefixes := cs.Prefixes
+		if len(prefixes) == 0 {
+			prefixes = []string{cs.Prefix}
+		}
 		id := atomic.AddInt64(&verifSeq, 1)
 		endpoints := []string{fmt.Sprintf("verif-%d:2379", id)}
 		etcd := newVerifEtcd()
@@ -305,7 +350,7 @@ func TestVerifDriver(t *testing.T) {
 		reg := &Registry{clusters: make(map[string]*cluster)}
 		connManager.Set(getClusterKey(endpoints), etcd) // what cluster.getClient would have created
 		var cl *cluster
-		var listeners []*verifListener
+		var subs []verifSub
 		steps := []verifStep{}
 		stuck := ""
 
@@ -317,10 +362,15 @@ func TestVerifDriver(t *testing.T) {
 			opened0 := etcd.nWatches()
 			switch ev.T {
 			case "sub":
+				if ev.P < 0 || ev.P >= len(prefixes) {
+					stuck = "bad prefix index"
+					break
+				}
 				l := &verifListener{}
-				listeners = append(listeners, l)
+				subs = append(subs, verifSub{l, ev.P})
 				done := make(chan error, 1)
-				go func() { done <- reg.Monitor(endpoints, cs.Prefix, l) }()
+				key := prefixes[ev.P]
+				go func() { done <- reg.Monitor(endpoints, key, l) }()
 				select {
 				case err := <-done:
 					if err != nil {
@@ -361,21 +411,31 @@ func TestVerifDriver(t *testing.T) {
 				}
 				etcd.mu.Unlock()
 				if e != nil && ev.D {
-					for _, w := range etcd.live() {
-						if !w.selects(ev.K) {
-							continue
-						}
-						if !w.send(clientv3.WatchResponse{Events: []*clientv3.Event{e}}) || !w.send(clientv3.WatchResponse{}) {
-							stuck = "watch stream not read"
-							break
-						}
+					stuck = verifDeliver(etcd, []*clientv3.Event{e})
+				}
+			case "batch":
+				var evs []*clientv3.Event
+				etcd.mu.Lock()
+				for _, it := range ev.Items {
+					etcd.rev++
+					if it.T == "put" {
+						etcd.store[it.K] = it.V
+						evs = append(evs, verifMkEvent(true, it.K, it.V, etcd.rev))
+					} else {
+						delete(etcd.store, it.K)
+						evs = append(evs, verifMkEvent(false, it.K, "", etcd.rev))
 					}
 				}
+				etcd.mu.Unlock()
+				stuck = verifDeliver(etcd, evs)
 			case "reload":
 				if cl == nil {
 					break // nothing is connected yet
 				}
-				nl := len(listeners)
+				listened := map[int]bool{}
+				for _, s := range subs {
+					listened[s.p] = true
+				}
 				w0 := conn.nWaits(connectivity.TransientFailure)
 				r0 := conn.nWaits(connectivity.Ready)
 				conn.set(connectivity.TransientFailure)
@@ -388,8 +448,8 @@ func TestVerifDriver(t *testing.T) {
 					stuck = "state watcher (ready)"
 					break
 				}
-				// reload stops the running streams, then loads and watches again
-				if nl > 0 && !verifWaitFor(func() bool { return etcd.nWatches() >= opened0+1 }) {
+				// reload stops the running streams, then per listened key loads and watches again
+				if !verifWaitFor(func() bool { return etcd.nWatches() >= opened0+len(listened) }) {
 					stuck = "watch after reload"
 					break
 				}
@@ -402,38 +462,53 @@ func TestVerifDriver(t *testing.T) {
 
 			var st verifStep
 			st.Stuck = stuck
-			st.Calls = [][][]string{}
-			for _, l := range listeners {
-				st.Calls = append(st.Calls, l.take())
-			}
-			st.Cvals = [][2]string{}
-			if cl != nil {
-				cl.lock.Lock()
-				vals, ok := cl.values[cs.Prefix]
-				st.HasCvals = ok
-				for k, v := range vals {
-					st.Cvals = append(st.Cvals, [2]string{k, v})
+			for pi, pfx := range prefixes {
+				var per verifPer
+				per.Calls = [][][]string{}
+				for _, s := range subs {
+					if s.p == pi {
+						per.Calls = append(per.Calls, s.l.take())
+					}
 				}
-				cl.lock.Unlock()
-				sort.Slice(st.Cvals, func(i, j int) bool { return st.Cvals[i][0] < st.Cvals[j][0] })
-			}
-			st.Watchers = len(etcd.live())
-			etcd.mu.Lock()
-			st.Gets = len(etcd.getRevs) - gets0
-			if st.Gets > 0 {
-				st.GetRev = etcd.getRevs[len(etcd.getRevs)-1]
-			}
-			st.Opened = len(etcd.watches) - opened0
-			st.WatchRev = -1
-			if st.Opened > 0 {
-				w := etcd.watches[len(etcd.watches)-1]
-				st.WatchRev = w.rev
-				st.WatchPfx = w.prefix
-				if !w.isPfx {
-					st.WatchPfx = "=" + w.prefix
+				per.Cvals = [][2]string{}
+				if cl != nil {
+					cl.lock.Lock()
+					vals, ok := cl.values[pfx]
+					per.HasCvals = ok
+					for k, v := range vals {
+						per.Cvals = append(per.Cvals, [2]string{k, v})
+					}
+					cl.lock.Unlock()
+					sort.Slice(per.Cvals, func(i, j int) bool { return per.Cvals[i][0] < per.Cvals[j][0] })
 				}
+				want := pfx + string(rune(Delimiter))
+				etcd.mu.Lock()
+				for gi := gets0; gi < len(etcd.getRevs); gi++ {
+					if etcd.getKeys[gi] == want {
+						per.Gets++
+						per.GetRev = etcd.getRevs[gi]
+					}
+				}
+				per.WatchRev = -1
+				for wi, w := range etcd.watches {
+					if w.prefix != want {
+						continue
+					}
+					if !w.dead {
+						per.Watchers++
+					}
+					if wi >= opened0 {
+						per.Opened++
+						per.WatchRev = w.rev
+						per.WatchPfx = w.prefix
+						if !w.isPfx {
+							per.WatchPfx = "=" + w.prefix
+						}
+					}
+				}
+				etcd.mu.Unlock()
+				st.Per = append(st.Per, per)
 			}
-			etcd.mu.Unlock()
 			steps = append(steps, st)
 		}
 		return map[string]any{"steps": steps}
